@@ -363,8 +363,18 @@ func (sf *SnowflakeProxy) makePeerConnectionFromOffer(sdp *webrtc.SessionDescrip
 	if err != nil {
 		return nil, fmt.Errorf("accept: NewPeerConnection: %s", err)
 	}
+	var dataChanOnce sync.Once
 	pc.OnDataChannel(func(dc *webrtc.DataChannel) {
 		log.Println("OnDataChannel")
+		// The remote client decides how many data channels it opens. Only
+		// the first one is served: one session slot, one handler.
+		first := false
+		dataChanOnce.Do(func() { first = true })
+		if !first {
+			log.Println("Ignoring an additional data channel")
+			dc.Close()
+			return
+		}
 		close(dataChan)
 
 		pr, pw := io.Pipe()
